@@ -192,7 +192,21 @@ fn model_substvars(model: &[MItem]) -> Vec<String> {
 }
 
 fn live_entries(r: &Relations) -> Vec<Vec<Seen>> {
-    r.entries().map(|e| e.relations().map(|x| seen_lossless(&x)).collect()).collect()
+    let v: Vec<Vec<Seen>> = r.entries().map(|e| e.relations().map(|x| seen_lossless(&x)).collect()).collect();
+    // the other views of the same list (iter, len, is_empty, get_entry/get_relation) must tell the same story:
+    // a disagreement shows as a live mismatch (an extra pseudo-entry in the result)
+    let via_iter: Vec<Vec<Seen>> = r.iter().map(|e| e.iter().map(|x| seen_lossless(&x)).collect()).collect();
+    let lens_ok = r.len() == v.len()
+        && r.is_empty() == v.is_empty()
+        && r.entries().zip(v.iter()).all(|(e, m)| e.len() == m.len() && e.is_empty() == m.is_empty())
+        && (0..v.len()).all(|i| r.get_entry(i).is_some_and(|e| (0..v[i].len()).all(|j| e.get_relation(j).is_some_and(|x| seen_lossless(&x) == v[i][j])) && e.get_relation(v[i].len()).is_none()))
+        && r.get_entry(v.len()).is_none();
+    if via_iter != v || !lens_ok {
+        let mut w = v;
+        w.push(vec![]);
+        return w;
+    }
+    v
 }
 fn entry_texts(r: &Relations) -> Vec<String> {
     r.entries().map(|e| e.to_string().trim().to_string()).collect()
